@@ -1,16 +1,16 @@
 package main
 
 import (
-	"os/exec"
 	"archive/zip"
+	"bytes"
+	"context"
+	"fmt"
 	"github.com/polydawn/rio/fs"
 	"github.com/polydawn/rio/fs/osfs"
 	"github.com/polydawn/rio/stitch"
 	"golang.org/x/sys/unix"
-	"bytes"
-	"context"
-	"fmt"
 	"os"
+	"os/exec"
 	"path/filepath"
 	"strings"
 	"syscall"
@@ -738,7 +738,9 @@ func rtEngineRest(c *Ctx) {
 		}
 		z := func(n int) []byte { return make([]byte, n) }
 		cat := func(bs ...[]byte) []byte { return bytes.Join(bs, nil) }
-		f := func(n string, body []byte) Entry { return Entry{Name: n, Kind: 'f', Perms: 0644, Uid: 3, Gid: 4, Sec: 1e9, Content: body} }
+		f := func(n string, body []byte) Entry {
+			return Entry{Name: n, Kind: 'f', Perms: 0644, Uid: 3, Gid: 4, Sec: 1e9, Content: body}
+		}
 		sp := Fileset{{Name: "", Kind: 'd', Perms: 0755, Uid: 3, Gid: 4, Sec: 1e9}, f("data-then-0s", cat(rnd(4096), z(4096))), f("all-zero-8k", z(8192)), f("all-zero-4k", z(4096)),
 			f("zero-4097", z(4097)), f("hole-in-middle", cat(rnd(4096), z(8192), rnd(100))), f("zero-1m", z(1<<20)), f("tail-64k", cat(rnd(10), z(65536-10))), f("one-zero", z(1)),
 			// link targets up to the kernel's limit (PATH_MAX - 1)
